@@ -337,6 +337,18 @@ theorem c05_resume_only_suspended {s : State} (h : Reachable s) (a : Act) (x : N
       next =>
         exact key _ St.yielded (mid_suspend s c St.yielded hI hc (by simp) (by simp) (by simp)) rfl (by simp) (by simp) hx
       next => left; simpa [coStep] using hx
+    | awaitSelf pre post =>
+      simp only [coStep, coAwaitSelf] at hx
+      split at hx
+      · left; simpa using hx
+      next out ho =>
+        simp at hx; subst hx
+        have hm : out ∈ (collect (collect s.st pre).1 post).2 := List.mem_of_getLast? ho
+        have hcnt := (collect_spec post (collect s.st pre).1 out).2
+        have hst1 := (collect_spec pre s.st out).1
+        have : 0 < ((collect (collect s.st pre).1 post).2).count out := List.count_pos_iff.2 hm
+        unfold Hit at hcnt hst1
+        right; grind [wakeable]
     | call d =>
       simp only [coStep, coCall] at hx
       split at hx
@@ -427,6 +439,7 @@ theorem c05_resume_only_suspended {s : State} (h : Reachable s) (a : Act) (x : N
     | park => simp [mainStep, hc] at hx
     | parkNext => simp [mainStep, hc] at hx
     | pause => simp [mainStep, hc] at hx
+    | awaitSelf pre post => simp [mainStep, hc] at hx
     | call d => simp [mainStep, hc] at hx
     | join d => simp [mainStep, hc] at hx
     | fin => simp [mainStep, hc] at hx
@@ -477,6 +490,201 @@ theorem c05_active_iff {s : State} (h : Reachable s) :
     cases hcc : s.cur with
     | none => exact absurd hcc hc
     | some c => exact (cur_facts hI hcc).2.2
+
+/-! ## Any number of ready coroutines
+
+The ready queue of the model is a list: every theorem above holds for queues of every length and for every interleaving of appends
+and removals.  The statements below make that quantifier explicit — the size of the queue and the shape of the history (wide fan-out,
+fan-out while the queue is being drained, repeated fill/drain cycles) appear as universally quantified variables, with no bound.
+The generated programs of `checks/c05.py` (`wide_fanout`, `wide_tree`, `wide_cycles`, `wide_ring`, `wide_random`, `deep_chain`:
+tens to a thousand coroutines ready at once, widths around powers of two) tie exactly these statements to the headers. -/
+
+/-- **The ready queue is a queue at every size** (any reachable state, any continuation, no bound on the number of ready
+coroutines or on the number of acts): between two points of a run, let `new` be what was appended to the ready queue in between.
+Then what was taken from the queue in between is a prefix — the first `k` — of `ready ++ new`, and the queue afterwards is exactly
+the rest: whatever the number of coroutines that are ready at the same time (`s.ready.length` is arbitrary), and however the
+appends are interleaved with the removals (the queue grows while it is being drained), nothing is lost, nothing is duplicated and
+nothing overtakes. -/
+theorem c05_fifo_window {s : State} (h : Reachable s) (acts : List Act) :
+    ∃ (new : List Nat) (k : Nat),
+      (run s acts).enq = s.enq ++ new
+      ∧ (run s acts).deq = s.deq ++ (s.ready ++ new).take k
+      ∧ (run s acts).ready = (s.ready ++ new).drop k := by
+  have hI := (reachable_inv h).fifo
+  have hT := (reachable_inv (reachable_run h acts)).fifo
+  obtain ⟨⟨new, hn⟩, ⟨d, hd⟩⟩ := grows_run acts s
+  generalize run s acts = t at *
+  refine ⟨new, d.length, hn.symm, ?_, ?_⟩
+  all_goals
+    have key : d ++ t.ready = s.ready ++ new := by
+      have : s.deq ++ (d ++ t.ready) = s.deq ++ (s.ready ++ new) := by
+        rw [← List.append_assoc, hd, ← hT, ← hn, hI, List.append_assoc]
+      exact List.append_cancel_left this
+    rw [← key]
+    simp [hd]
+
+/-- **Any number of simultaneously ready coroutines is drained in queue order**: for every `n` — no bound — if `n` coroutines wait
+in the ready queue, then in every later state in which at least `n` handles have been taken from the queue, the first `n` of them
+were exactly those `n` coroutines, in the order in which they waited, before anything that was queued later. -/
+theorem c05_fifo_any_width (n : Nat) {s : State} (h : Reachable s) (hn : s.ready.length = n) (acts : List Act)
+    (hd : s.deq.length + n ≤ (run s acts).deq.length) :
+    (s.deq ++ s.ready) <+: (run s acts).deq := by
+  obtain ⟨new, k, _, h2, _⟩ := c05_fifo_window h acts
+  rw [h2] at hd ⊢
+  have hk : n ≤ k := by
+    simp only [List.length_append, List.length_take] at hd
+    omega
+  refine (List.prefix_append_right_inj _).2 ?_
+  have e : (s.ready ++ new).take n = s.ready := by
+    rw [List.take_append_of_le_length (by omega), ← hn, List.take_length]
+  have := List.take_prefix_take_left (l := s.ready ++ new) hk
+  rwa [e] at this
+
+/-- **Fan-out of any width** (decision logic, any state): a running coroutine that makes `cs` ready — any number of pairwise
+different fresh or parked coroutines — and drops the suspend point appends all of them, in order, behind what is already queued
+(of any length): the queue holds `s.ready.length + cs.length` handles afterwards, none is dropped, none is reordered. -/
+theorem c05_fanout_any_width (s : State) (c : Nat) (cs : List Nat) (rev : Bool) (hc : s.cur = some c)
+    (hnd : cs.Nodup) (hw : ∀ i ∈ cs, s.st i = St.fresh ∨ s.st i = St.parked) :
+    (step s (Act.wake cs Mode.discard rev)).ready = s.ready ++ cs
+    ∧ (step s (Act.wake cs Mode.discard rev)).ready.length = s.ready.length + cs.length
+    ∧ (step s (Act.wake cs Mode.discard rev)).cur = some c := by
+  have hh : handles s.st cs rev = cs := by
+    unfold handles
+    apply collect_all cs s.st hnd
+    intro i hi
+    rcases hw i hi with e | e <;> simp [e, wakeable]
+  obtain ⟨h1, h2, _⟩ := c05_no_preempt s c cs rev hc
+  refine ⟨by rw [h2, hh], by rw [h2, hh, List.length_append], h1⟩
+
+/-- **Non-vacuity at every width**: for every list `cs` of pairwise different coroutines (any length — 33, 65, 1000 …) the program
+"ordinary code starts coroutine 0; 0 makes all of `cs` ready, drops the suspend point and finishes; everybody finishes" is a run of
+the model in which `cs.length` coroutines are ready at the same time; they are resumed from the queue in exactly the order `cs`,
+each once, and when control is back in ordinary code the queue is empty and the thread has left coroutine mode. -/
+theorem c05_wide_fanout_run (cs : List Nat) (hnd : cs.Nodup) (h0 : 0 ∉ cs) :
+    (run init [Act.start 0 true, Act.wake cs Mode.discard false]).ready = cs
+    ∧ (run init [Act.start 0 true, Act.wake cs Mode.discard false]).cur = some 0
+    ∧ (run init (Act.start 0 true :: Act.wake cs Mode.discard false :: List.replicate (cs.length + 1) Act.fin)).deq = cs
+    ∧ (run init (Act.start 0 true :: Act.wake cs Mode.discard false :: List.replicate (cs.length + 1) Act.fin)).runs = 0 :: cs
+    ∧ (run init (Act.start 0 true :: Act.wake cs Mode.discard false :: List.replicate (cs.length + 1) Act.fin)).ready = []
+    ∧ (run init (Act.start 0 true :: Act.wake cs Mode.discard false :: List.replicate (cs.length + 1) Act.fin)).cur = none
+    ∧ (run init (Act.start 0 true :: Act.wake cs Mode.discard false :: List.replicate (cs.length + 1) Act.fin)).active = false := by
+  have hs1 : (step init (Act.start 0 true)).cur = some 0 := by decide
+  have hw : ∀ i ∈ cs, (step init (Act.start 0 true)).st i = St.fresh ∨ (step init (Act.start 0 true)).st i = St.parked := by
+    intro i hi
+    have : i ≠ 0 := fun e => h0 (e ▸ hi)
+    left
+    simp [step, init, mainStep, mainStart, upd, this]
+  obtain ⟨f1, _, f3⟩ := c05_fanout_any_width (step init (Act.start 0 true)) 0 cs false hs1 hnd hw
+  have hr0 : (step init (Act.start 0 true)).ready = [] := by decide
+  rw [hr0, List.nil_append] at f1
+  have e2 : run init [Act.start 0 true, Act.wake cs Mode.discard false]
+      = step (step init (Act.start 0 true)) (Act.wake cs Mode.discard false) := rfl
+  have e3 : run init (Act.start 0 true :: Act.wake cs Mode.discard false :: List.replicate (cs.length + 1) Act.fin)
+      = run (step (step init (Act.start 0 true)) (Act.wake cs Mode.discard false)) (List.replicate (cs.length + 1) Act.fin) := rfl
+  obtain ⟨_, _, g3, g4, g5, g6, _⟩ := c05_no_preempt (step init (Act.start 0 true)) 0 cs false hs1
+  have hwt : ∀ i, (step (step init (Act.start 0 true)) (Act.wake cs Mode.discard false)).waiter i = none := by
+    intro i; simp [step, coStep, enqueue]; simp [init, mainStep, mainStart]
+  have hcl : (step init (Act.start 0 true)).calls = [] := by decide
+  have hb : (step init (Act.start 0 true)).base = some (Base.loop [] false) := by decide
+  have hd0 : (step init (Act.start 0 true)).deq = [] := by decide
+  have hru0 : (step init (Act.start 0 true)).runs = [0] := by decide
+  have := drain_fins cs _ 0 f3 (by rw [g5, hcl]) (by rw [g6, hb]) f1 hwt
+  rw [e2, e3]
+  refine ⟨f1, f3, ?_, ?_, this.2.1, this.1, this.2.2.2.2.1⟩
+  · rw [this.2.2.1, g3, hd0]; rfl
+  · rw [this.2.2.2.1, g4, hru0]; rfl
+
+/-- fan-out while the queue is being drained (the shape of `wide_fanout`/`wide_tree` of the generator): 0 readies 1, 2 and
+finishes; 1 runs, readies 3, 4 and pauses; 2 runs, readies 5, 6 and pauses — the queue grows (2, 3, 4 handles …) while its head
+advances; the handles leave it in exactly the order in which they entered -/
+example :
+    let p := [Act.start 0 true, Act.wake [1, 2] Mode.discard false, Act.fin,
+              Act.wake [3, 4] Mode.discard false, Act.pause, Act.wake [5, 6] Mode.discard false, Act.pause]
+    (run init p).cur = some 3 ∧ (run init p).ready = [4, 1, 5, 6, 2] ∧ (run init p).deq = [1, 2, 3]
+    ∧ (run init p).enq = [1, 2, 3, 4, 1, 5, 6, 2]
+    ∧ (run init (p ++ List.replicate 6 Act.fin)).deq = [1, 2, 3, 4, 1, 5, 6, 2]
+    ∧ (run init (p ++ List.replicate 6 Act.fin)).cur = none
+    ∧ (run init (p ++ List.replicate 6 Act.fin)).active = false := by decide
+
+/-! ## `co_await` of a suspend point that holds the awaiting coroutine's own handle (self.h)
+
+`sp = <make pre ready>; sp << co_await self(); sp << <make post ready>; co_await sp;` — `Act.awaitSelf pre post`.  The awaiting
+coroutine handed in ONE handle of itself, so "each exactly once" of the statement says it is resumed exactly once: by the symmetric
+transfer when its handle is the last one (then it must not be queued as well), from the ready queue otherwise (then it must not be
+queued a second time "as the awaiting coroutine").  All invariant theorems above (`c05_once`, `c05_no_reentry`, `c05_fifo`,
+`c05_drain`, …) hold for act lists that contain such awaits, because `Reachable` quantifies over all acts. -/
+
+/-- own handle LAST (decision logic, any state): the awaiting coroutine continues at once — the transfer goes to itself —, it is
+not put into the ready queue; the handles of `pre` are appended in order; nothing is taken from the queue -/
+theorem c05_await_own_handle_last (s : State) (c : Nat) (pre post : List Nat) (hc : s.cur = some c)
+    (hp : (collect (collect s.st pre).1 post).2 = []) :
+    (step s (Act.awaitSelf pre post)).cur = some c
+    ∧ (step s (Act.awaitSelf pre post)).ready = s.ready ++ (collect s.st pre).2
+    ∧ (step s (Act.awaitSelf pre post)).deq = s.deq
+    ∧ (step s (Act.awaitSelf pre post)).runs = s.runs ++ [c]
+    ∧ (step s (Act.awaitSelf pre post)).made = s.made ++ (collect s.st pre).2 ++ [c] := by
+  simp [step, hc, coStep, coAwaitSelf, hp]
+
+/-- own handle NOT last (decision logic, any state): the last handle `out` runs first; the handles of `pre`, the awaiting
+coroutine — at the position of its own handle, once — and the other handles of `post` are appended to the queue in this order -/
+theorem c05_await_own_handle_inside (s : State) (c : Nat) (pre post : List Nat) (hc : s.cur = some c) (out : Nat)
+    (ho : (collect (collect s.st pre).1 post).2.getLast? = some out) :
+    (step s (Act.awaitSelf pre post)).cur = some out
+    ∧ (step s (Act.awaitSelf pre post)).ready
+        = s.ready ++ (collect s.st pre).2 ++ [c] ++ (collect (collect s.st pre).1 post).2.dropLast
+    ∧ (step s (Act.awaitSelf pre post)).deq = s.deq
+    ∧ (step s (Act.awaitSelf pre post)).runs = s.runs ++ [out] := by
+  simp [step, hc, coStep, coAwaitSelf, ho]
+
+/-- **Exactly once, the own handle included** (every reachable state, any `pre`/`post`): after `co_await` of a suspend point
+that holds its own handle the awaiting coroutine either continues at once or waits in the ready queue exactly once — never both
+(no stale queue entry that would resume it a second time while it is suspended on something else), never twice, never neither. -/
+theorem c05_await_own_handle_once {s : State} (h : Reachable s) (c : Nat) (pre post : List Nat) (hc : s.cur = some c) :
+    (step s (Act.awaitSelf pre post)).ready.count c
+      + (if (step s (Act.awaitSelf pre post)).cur = some c then 1 else 0) = 1 := by
+  have hT := reachable_inv (reachable_step h (Act.awaitSelf pre post))
+  have h1 := hT.handle_once c
+  have h2 := hT.running_iff c
+  cases hp : (collect (collect s.st pre).1 post).2.getLast? with
+  | none =>
+    have hnil : (collect (collect s.st pre).1 post).2 = [] := by simpa using hp
+    have hcur := (c05_await_own_handle_last s c pre post hc hnil).1
+    have := h2.2 hcur
+    rw [this] at h1
+    simp at h1
+    simp [hcur, h1.1]
+  | some out =>
+    obtain ⟨hcur, hr, _, _⟩ := c05_await_own_handle_inside s c pre post hc out hp
+    have hne : out ≠ c := by
+      intro e
+      have := h2.2 (e ▸ hcur)
+      have hpos : 0 < (step s (Act.awaitSelf pre post)).ready.count c := by
+        rw [hr]; simp [List.count_append]; omega
+      rw [this] at h1
+      simp at h1
+      omega
+    have hpos : 0 < (step s (Act.awaitSelf pre post)).ready.count c := by
+      rw [hr]; simp [List.count_append]; omega
+    have : (step s (Act.awaitSelf pre post)).cur ≠ some c := by rw [hcur]; simpa using hne
+    simp only [this, if_false]
+    split at h1 <;> omega
+
+/-- reachable states that use the new step: the demonstration program of the seeded change `r6-c05-await-suspend-self-check-after-pop`
+(1 parks; 0 makes 1 ready, adds its own handle LAST and awaits: 0 continues, 1 is queued, 0 is not; 0 parks: 1 runs, and when
+control is back in ordinary code 0 is still parked — it was not resumed a second time); own handle first; own handle in the middle -/
+example :
+    (run init [Act.start 1 true, Act.park, Act.start 0 true, Act.awaitSelf [1] []]).cur = some 0
+    ∧ (run init [Act.start 1 true, Act.park, Act.start 0 true, Act.awaitSelf [1] []]).ready = [1]
+    ∧ (run init [Act.start 1 true, Act.park, Act.start 0 true, Act.awaitSelf [1] [], Act.park]).cur = some 1
+    ∧ (run init [Act.start 1 true, Act.park, Act.start 0 true, Act.awaitSelf [1] [], Act.park, Act.fin]).cur = none
+    ∧ (run init [Act.start 1 true, Act.park, Act.start 0 true, Act.awaitSelf [1] [], Act.park, Act.fin]).st 0 = St.parked
+    ∧ (run init [Act.start 1 true, Act.park, Act.start 0 true, Act.awaitSelf [1] [], Act.park, Act.fin]).runs = [1, 0, 0, 1]
+    ∧ (run init [Act.start 0 true, Act.awaitSelf [] [1, 2]]).cur = some 2
+    ∧ (run init [Act.start 0 true, Act.awaitSelf [] [1, 2]]).ready = [0, 1]
+    ∧ (run init [Act.start 0 true, Act.awaitSelf [1] [2, 3]]).cur = some 3
+    ∧ (run init [Act.start 0 true, Act.awaitSelf [1] [2, 3]]).ready = [1, 0, 2]
+    ∧ (run init [Act.start 0 true, Act.awaitSelf [] []]).cur = some 0
+    ∧ (run init [Act.start 0 true, Act.awaitSelf [] []]).ready = [] := by decide
 
 /-! ## Other threads: `parallel` (resume.h) and the thread pool as scheduling modifiers
 
